@@ -401,3 +401,88 @@ def contracts():
     for c in extra:
         c.prop = "C04"
     return _c04_base_r7() + extra
+
+
+# ---------------------------------------------------------------------------------------------
+# Parameters._execute_watcher — one callback invocation per call; a callback that raises Skip ends
+# quietly (so a flush goes on with the next queued watcher), any other exception is the caller's
+# ---------------------------------------------------------------------------------------------
+SKIP_REPLAY = '''import sys, os, itertools
+sys.path.insert(0, os.environ.get('PYVC_REPO', '/repo'))
+import param
+bad = []
+class P(param.Parameterized):
+    a = param.Number(default=0)
+    b = param.Number(default=0)
+for how, order in itertools.product(('batch', 'update', 'plain', 'trigger'), ((0, 1), (1, 0))):
+    p = P()
+    log = []
+    def skipper(*ev):
+        log.append('skipper'); raise param.Skip
+    def other(*ev):
+        log.append('other')
+    fns = [skipper, other]
+    for k, i in enumerate(order):
+        p.param.watch(fns[i], ['a'] if how != 'update' else ['a', 'b'], precedence=k)
+    try:
+        if how == 'batch':
+            with param.parameterized.batch_call_watchers(p):
+                p.a = 1
+        elif how == 'update':
+            p.param.update(a=1, b=2)
+        elif how == 'trigger':
+            p.param.trigger('a')
+        else:
+            p.a = 1
+    except BaseException as e:
+        bad.append('%s, watchers in order %r: %r escaped' % (how, order, e)); continue
+    if sorted(log) != ['other', 'skipper']:
+        bad.append('%s, watchers in order %r: callbacks run %r (each watcher is to run once, a Skip ends only its own callback)' % (how, order, log))
+if bad:
+    print('REPRODUCED: ' + bad[0]); sys.exit(1)
+print('NOT-REPRODUCED'); sys.exit(0)
+'''
+
+
+def execute_watcher_contract(mode):
+    def configure(I):
+        I.sym_fields = {"mode", "fn", "name", "new"}
+        I.contracts["iscoroutinefunction"] = lambda I, st, fv, args, kwargs, ctx: [(st, Conc(False))]
+
+        def callback(I, st, fv, args, kwargs, ctx):
+            st.ghost["callback_runs"] = st.ghost.get("callback_runs", 0) + 1
+            q, r = st.fork(), st.fork()
+            return [(st, Conc(None)), (q, Raise("$User", origin="watcher")), (r, Raise("Skip", origin="watcher"))]
+        I.lib["$sym_call"] = callback
+
+    def setup(I, st):
+        from pyvc.objects import sym_field
+        U = I.U
+        W = dm.World(I, st, initialized=Conc(True))
+        w = Sym(U.fresh("watcher"))
+        st.pc.append(z3.Select(sym_field(I, st, "mode"), w.t) == U.lit(mode))
+        ev = Sym(U.fresh("event"))
+        st.pc.append(vm.ty(z3.Select(sym_field(I, st, "name"), ev.t)) == vm.TAG["str"])
+        fv = I.bound_method(W.param, I.src.find_method("Parameters", "_execute_watcher"))
+        return fv, [w, I.make_list(st, [ev])], {}, {"symbols": {}}
+
+    def post(I, info, st, oc):
+        out = [("the callback is invoked exactly once", z3.BoolVal(st.ghost.get("callback_runs", 0) == 1))]
+        if isinstance(oc, Raise):
+            out.append(("a Skip raised by the callback ends this invocation only: it never reaches the dispatcher",
+                        z3.BoolVal(oc.cls != "Skip")))
+            out.append(("only the callback's own exception escapes", z3.BoolVal(oc.cls in ("$User", "Skip"))))
+        return out
+    c = FunctionContract("param.parameterized:Parameters._execute_watcher", PROP, setup, post, configure=configure,
+                         name="Parameters._execute_watcher[mode %s]" % mode)
+    c.static_replay = SKIP_REPLAY
+    c.static_witness = "one of two watchers raises param.Skip (plain set, batch, update, trigger; both orders)"
+    return c
+
+
+_c04_base_exec = contracts
+
+
+def contracts():
+    # mode "kwargs" builds a keyword dictionary with computed keys: outside the executor's subset; the probe covers it
+    return _c04_base_exec() + [execute_watcher_contract("args")]
